@@ -2324,6 +2324,31 @@ void VariableManager::process_variable_declaration(const ASTNode *node) {
                     }
                 }
             } else {
+                // const safety: the same cases as on pointer assignment
+                // (executors/assignments/simple_assignment.cpp)
+                if (init_node->node_type == ASTNodeType::AST_UNARY_OP &&
+                    init_node->op == "ADDRESS_OF" && init_node->left &&
+                    init_node->left->node_type == ASTNodeType::AST_VARIABLE) {
+                    Variable *target_var =
+                        interpreter_->find_variable(init_node->left->name);
+                    if (target_var && target_var->is_const &&
+                        !node->is_pointee_const_qualifier) {
+                        throw std::runtime_error(
+                            "Cannot initialize non-const pointer '" +
+                            node->name + "' with address of const variable '" +
+                            init_node->left->name + "'");
+                    }
+                    if (target_var && target_var->type == TYPE_POINTER &&
+                        (target_var->is_pointee_const ||
+                         target_var->is_pointer_const) &&
+                        node->pointer_depth >= 2 &&
+                        !node->is_pointee_const_qualifier) {
+                        throw std::runtime_error(
+                            "Cannot initialize non-const double pointer '" +
+                            node->name + "' with address of const pointer '" +
+                            init_node->left->name + "'");
+                    }
+                }
                 // 関数呼び出し以外の初期化式（変数、演算子など）
                 TypedValue typed_value =
                     interpreter_->expression_evaluator_
